@@ -436,27 +436,24 @@ Definition mk_bop (a : snap) (m : meth) : bop :=
 Definition opt_is (o : option text) (p : text) : bool :=
   match o with Some q => text_eqb q p | None => false end.
 
-Definition port_bindings (a : snap) (s : svc) : list binding :=
-  map (fun p => {| b_name := p; b_type := (a_tns a, p);
-                   b_ops := map (mk_bop a) (filter (fun m => opt_is (me_port m) p) (s_meths s)) |})
-      (s_ports s).
+(** add_bindings_for_methods over the services.  Bindings are looked up by name
+    (_get_or_create_binding, binding_dict) exactly like port types are: the element
+    is created where its name is first asked for and later requests append their
+    operations to it.  A service with port types asks, for each entry of
+    __port_types__ in turn, for the binding of that name and appends its methods
+    of that port type; a service without port types asks for the binding named
+    after the application (cb_binding) and appends all its methods. *)
+Definition bind_ops (a : snap) (n : text) (s : svc) : list bop :=
+  if is_nil (s_ports s)
+  then (if text_eqb (a_name a) n then map (mk_bop a) (s_meths s) else [])
+  else flat_map (fun p => if text_eqb p n
+                          then map (mk_bop a) (filter (fun m => opt_is (me_port m) p) (s_meths s))
+                          else []) (s_ports s).
 
-Definition default_svcs (a : snap) : list svc := filter (fun s => is_nil (s_ports s)) (a_svcs a).
-Definition default_binding (a : snap) : binding :=
-  {| b_name := a_name a; b_type := (a_tns a, a_name a);
-     b_ops := map (mk_bop a) (flat_map s_meths (default_svcs a)) |}.
-
-(** add_bindings_for_methods over the services: one new binding per declared port
-    type of each service; one shared binding (cb_binding) for all the services
-    without port types, created when the first of them is met *)
-Fixpoint bindings_go (a : snap) (have_default : bool) (l : list svc) : list binding :=
-  match l with
-  | [] => []
-  | s :: r => if is_nil (s_ports s)
-              then (if have_default then [] else [default_binding a]) ++ bindings_go a true r
-              else port_bindings a s ++ bindings_go a have_default r
-  end.
-Definition bindings (a : snap) : list binding := bindings_go a false (a_svcs a).
+Definition bindings (a : snap) : list binding :=
+  map (fun n => {| b_name := n; b_type := (a_tns a, n);
+                   b_ops := flat_map (bind_ops a n) (a_svcs a) |})
+      (dedup_t [] (flat_map (svc_ptnames a) (a_svcs a))).
 
 (** _get_or_create_service_node + _add_port_to_service *)
 Definition svc_ports (a : snap) (s : svc) : list (text * qn) :=
